@@ -31,8 +31,8 @@ ASSUMPTIONS = [
 def BOUND(tier):
     return {
         'quick': 'mask pairs len<=8, vectors len<=14; ternary records n<=4 '
-                 '(<=2 gaps) on 4 combos, n=5 and n=6 (no gap) on 1 combo; '
-                 'CLI n<=3',
+                 '(<=2 gaps) on 4 combos, n=5 (<=1 gap) on 2 combos, n=3 with '
+                 'thresholds 2^-30 and 2^30; CLI n<=3',
         'thorough': 'mask pairs len<=10, vectors len<=18; ternary n<=5 (all '
                     'gap masks) on 5 combos, n=6 (<=1 gap), n=7 (no gap); '
                     'CLI n<=4',
@@ -72,10 +72,15 @@ def spaces(tier):
             for combo in cs.COMBOS[:4]:
                 out.append(cs.db_space(n, combo, 2))
         out.append(cs.db_space(5, cs.COMBOS[2], 0))
-        out.append(cs.db_space(6, cs.COMBOS[3], 0))
+        out.append(cs.db_space(5, cs.COMBOS[3], 1))
+        for combo in cs.EXTREME:
+            out.append(cs.db_space(3, combo, 1))
         for n in (2, 3):
             out.append(cs.db_space(n, cs.COMBOS[n % 4], 1, cli=True))
     else:
+        out.append(cs.db_space(6, cs.COMBOS[3], 0))
+        for combo in cs.EXTREME:
+            out.append(cs.db_space(5, combo, 1))
         out += [mystery_space(n) for n in range(0, 11)]
         out += [runs_space(n) for n in range(0, 19)]
         for n in (2, 3, 4, 5):
